@@ -24,6 +24,13 @@ type c04Case struct {
 	StreamSeed string `json:"stream"`
 }
 
+type c04Hold struct {
+	what       string
+	live, copy []byte
+}
+
+var c04Held []c04Hold
+
 type rawEnc []byte
 
 func (r rawEnc) Encode(b *bin.Buffer) error { b.Put(r); return nil }
@@ -80,6 +87,22 @@ func oneC04(c *mon.Ctx, k crypto.AuthKey, cs c04Case, payload []byte, stream *ra
 	if got.Salt != cs.Salt || got.SessionID != cs.Session || got.MessageID != cs.MsgID || got.SeqNo != cs.SeqNo ||
 		int(got.MessageDataLen) != len(payload) || !bytes.Equal(got.Data(), payload) {
 		c.Violate("peer-fields-differ", map[string]any{"case": cs, "got_len": got.MessageDataLen})
+	}
+	// history: what earlier calls returned (decrypted payloads, ciphertexts) must not change when the
+	// cipher is used again (no shared scratch memory behind returned slices)
+	for _, h := range c04Held {
+		if !bytes.Equal(h.live, h.copy) {
+			c.Violate("earlier-result-changed-by-a-later-call|"+h.what, map[string]any{"case": cs, "was": hx(h.copy), "now": hx(h.live)})
+			c04Held = nil
+			break
+		}
+	}
+	if len(c04Held) >= 8 {
+		c04Held = c04Held[2:]
+	}
+	if len(payload) > 0 && len(payload) <= 4096 {
+		c04Held = append(c04Held, c04Hold{"decrypted-payload", got.Data(), append([]byte(nil), got.Data()...)},
+			c04Hold{"ciphertext", b.Buf, append([]byte(nil), b.Buf...)})
 	}
 	return ref.PaddingLen
 }
